@@ -716,7 +716,16 @@ impl<V: Object> Object for HashMap<Name, V> {
             Primitive::Dictionary (dict) => {
                 let mut new = Self::new();
                 for (key, val) in dict.iter() {
-                    new.insert(key.clone(), V::from_primitive(val.clone(), resolve)?);
+                    // an entry whose value is null, or a reference to an object that does not exist,
+                    // is treated as if the entry did not exist (PDF 32000-1:2008, 7.3.7 and 7.3.10)
+                    if let Primitive::Null = *val {
+                        continue;
+                    }
+                    match V::from_primitive(val.clone(), resolve) {
+                        Ok(v) => { new.insert(key.clone(), v); }
+                        Err(e) if matches!(*val, Primitive::Reference(_)) && e.is_missing_object() => {}
+                        Err(e) => return Err(e)
+                    }
                 }
                 Ok(new)
             }
